@@ -59,7 +59,7 @@ Section T.
     destruct (sync_events hashf bs nlev o now fs faults autosave stripes stop c1 par 0 0 0) as [evs out]. cbn [fst snd] in *.
     subst out.
     set (r := sync_loop hashf bs nlev o now fs faults stripes stop c1 par 0 0 0) in *.
-    exists ([MResize (allocated_size c1); MSave c1] ++ evs ++ (if ro_bailed r then [] else [MFsync]) ++ [MDrain]).
+    exists ([MResize (allocated_size c1); MSave c1] ++ evs ++ [MDrain] ++ (if ro_bailed r then [] else [MFsync])).
     split.
     - rewrite <- !app_assoc. reflexivity.
     - rewrite E2. f_equal. rewrite !scheds_app. destruct (ro_bailed r); simpl; rewrite ?app_nil_r; reflexivity.
